@@ -10,6 +10,7 @@ import TsVerif.C17.StackSpec
 import TsVerif.C17.MultiOrder
 import TsVerif.C17.WellNested
 import TsVerif.C17.Dyn
+import TsVerif.C17.Lines
 /-!
 Driver for C17.  Reads the case stream written by `harness/src/bin/c17` and prints one line per case:
 
@@ -42,6 +43,7 @@ structure St where
   fixFinal : Bool := true
   fixTrunc : Bool := true
   initInsert : Bool := false
+  fixCRCR : Bool := false
   langof : List Nat := []
   injs : List Inj := []
   locals : List (Nat × Nat × Nat × Nat) := []
@@ -110,7 +112,7 @@ def chunksOf (evs : List Ev) (src : Bytes) : List Bytes :=
 
 /-- Compare the model renderer (with the probed decoder) with the implementation's html and line offsets. -/
 def corrRender (s : St) : String × Bool :=
-  let cfg : RCfg := { attr := attrOfMode s.attrMode, crh := s.crh }
+  let cfg : RCfg := { attr := attrOfMode s.attrMode, crh := s.crh, crcr := s.fixCRCR }
   match s.html with
   | none =>
     (if (render lossy cfg s.evs s.src).isNone then "ok" else "DIFF-model-does-not-panic", true)
@@ -133,12 +135,27 @@ def htmlJudge (s : St) : String × String :=
         else "other"
       ("FAIL", cause)
 
+/-- The per-line judge on the real html + `line_offsets`; also: does the decoded text contain CRLF,
+is a carriage-return highlight configured, number of lines. -/
+def linesJudge (s : St) (balanced : Bool) : String :=
+  match s.html with
+  | none => "lines=panic crlf=0 crhset=0 nlines=0"
+  | some html =>
+    let cfg : RCfg := { attr := attrOfMode s.attrMode, crh := s.crh, crcr := s.fixCRCR }
+    let j := if s.attrMode == 3 then "skip" else judgeLines lossySpec cfg balanced s.evs s.src html s.lines
+    let d := decoded lossySpec s.evs s.src
+    let rec hasCRLF : Bytes → Bool
+      | 13 :: 10 :: _ => true
+      | _ :: r => hasCRLF r
+      | [] => false
+    s!"lines={j} crlf={if hasCRLF d then 1 else 0} cr={if d.any (· == 13) then 1 else 0} crhset={if s.crh.isSome then 1 else 0} nlines={s.lines.length}"
+
 def runRender (s : St) : String :=
   let (corr, _) := corrRender s
   -- an attribute callback that writes `>` is outside the renderer's contract: correspondence only
   let (j, cause) := if s.attrMode == 3 then ("skip", "-") else htmlJudge s
   let wf := wellFormed s.src.length s.evs
-  s!"{s.id} kind=R attr={s.attrMode} corr={corr} wf={if wf then 1 else 0} judge={j} cause={cause} capirc={s.capirc}"
+  s!"{s.id} kind=R attr={s.attrMode} corr={corr} wf={if wf then 1 else 0} judge={j} cause={cause} capirc={s.capirc} {linesJudge s wf}"
 
 def maxDepth (evs : List Ev) : Nat :=
   (evs.foldl (fun (p : Nat × Nat) ev => match ev with
@@ -157,7 +174,7 @@ def runHl (s : St) : String :=
   -- is the chunk-wise normalisation also the normalisation of the whole source? (cf. `normalize_whole`)
   let whole := decide (textOf lossySpec s.evs s.src = (lossySpec s.src).filter (· ≠ 13))
   let bnd := (chunksOf s.evs s.src).all fun c => !endsTruncated c
-  s!"{s.id} kind=H whole={if whole then 1 else 0} charbnd={if bnd then 1 else 0} corr={corr} wf={ok wf} inj={ok inj} html={j} loc={ok loc} cause={cause} nsp={(spans s.evs).length} ninj={s.injs.length} nloc={s.locals.length} depth={maxDepth s.evs} err={s.err}"
+  s!"{s.id} kind=H whole={if whole then 1 else 0} charbnd={if bnd then 1 else 0} corr={corr} wf={ok wf} inj={ok inj} html={j} loc={ok loc} cause={cause} nsp={(spans s.evs).length} ninj={s.injs.length} nloc={s.locals.length} depth={maxDepth s.evs} err={s.err} {linesJudge s wf}"
 
 def parseCaps (s : String) : List Cap :=
   if s == "-" then [] else (s.splitOn ",").filterMap fun t => match t.splitOn "-" with
@@ -328,7 +345,10 @@ def runMerge (s : St) : String :=
 
 def step (s : St) (line : String) : IO St := do
   match line.splitOn " " with
-  | ["case", id] => return { id := id, fixFinal := s.fixFinal, fixTrunc := s.fixTrunc, initInsert := s.initInsert }
+  | ["case", id] => return { id := id, fixFinal := s.fixFinal, fixTrunc := s.fixTrunc, initInsert := s.initInsert, fixCRCR := s.fixCRCR }
+  | ["probe", "crcr", b] =>
+    IO.println s!"probe kind=X crcr={b}"
+    return { s with fixCRCR := b == "1" }
   | ["probe", "initorder", b] =>
     IO.println s!"probe kind=W initinsert={b}"
     return { s with initInsert := b == "1" }
